@@ -20,7 +20,7 @@ pub fn def() -> CheckDef {
         },
         gen,
         run,
-        rule: "three seeded modes: (a) 'siblings': pools of 8-60 valid names mixing ASCII, cased and case-less non-ASCII and supplementary-plane characters, inserted and removed in drawn orders with lookups under drawn letter-case variants and alternative path spellings (./, //, trailing /, x/../), listings after each step; (b) 'validation': names of 1-40 UTF-16 units with and without / \\ : ! created through all four create calls, then looked up verbatim and after reopen; (c) 'disputed': names with characters whose case mapping is disputed - only exact-spelling findability, uniqueness, listing-as-set and listing order == in-order traversal of the stored tree are judged. Refused creations must perform zero seam writes. Image rules R6/R9 are checked by imgck after every mutation. Non-trivial: >= 1 successful creation and >= 1 check; distinct = distinct (seam log, final image) hash.",
+        rule: "four seeded modes ((d) 'supplementary-case': names with cased letters outside the BMP are stored verbatim, found under the other case, and a second sibling equal up to case is refused - equality follows the crate's documented per-character simple upper-casing, order is not judged): (a) 'siblings': pools of 8-60 valid names mixing ASCII, cased and case-less non-ASCII and supplementary-plane characters, inserted and removed in drawn orders with lookups under drawn letter-case variants and alternative path spellings (./, //, trailing /, x/../), listings after each step; (b) 'validation': names of 1-40 UTF-16 units with and without / \\ : ! created through all four create calls, then looked up verbatim and after reopen; (c) 'disputed': names with characters whose case mapping is disputed - only exact-spelling findability, uniqueness, listing-as-set and listing order == in-order traversal of the stored tree are judged. Refused creations must perform zero seam writes. Image rules R6/R9 are checked by imgck after every mutation. Non-trivial: >= 1 successful creation and >= 1 check; distinct = distinct (seam log, final image) hash.",
         assumptions: &["name order/equality model exact only for agreed character classes (names.rs); disputed classes judged as described", "path syntax is Unix (the sandbox OS)"],
         cpu_limit_s: 30,
         fault_kinds: "none (seam-level write counter for refused creations)",
@@ -36,8 +36,8 @@ pub fn flags(case: &Case) -> Flags {
         imgck_each: true,
         imgck_dump: true,
         final_check: true,
-        dump_each: case.mode == "disputed",
-        relaxed_order: case.mode == "disputed",
+        dump_each: case.mode == "disputed" || case.mode == "supplementary-case",
+        relaxed_order: case.mode == "disputed" || case.mode == "supplementary-case",
         ..Default::default()
     }
 }
@@ -68,10 +68,11 @@ fn sibling_weights() -> Vec<(&'static str, u32)> {
 pub fn gen(seed: u64, idx: u64, _tier: Tier) -> Case {
     let mut rng = Rng::for_case(seed, "C09", idx);
     let version = if rng.chance(1, 2) { 3 } else { 4 };
-    let mode = match idx % 5 {
-        0 | 1 => "siblings",
-        2 | 3 => "validation",
-        _ => "disputed",
+    let mode = match idx % 10 {
+        0 | 1 | 5 | 6 => "siblings",
+        2 | 3 | 7 | 8 => "validation",
+        4 => "disputed",
+        _ => "supplementary-case",
     };
     let mut c = Case::new("C09", mode, version);
     match mode {
@@ -119,6 +120,55 @@ pub fn gen(seed: u64, idx: u64, _tier: Tier) -> Case {
             let nops = rng.range(5, 70) as usize;
             let mut g = Gen::new(&mut rng, &cfg, Model::new(version));
             c.ops = g.history(nops);
+        }
+        "supplementary-case" => {
+            // cased letters outside the BMP: stored verbatim, found under the other case, a
+            // second sibling equal up to case refused (order is not judged for these names)
+            let count = rng.range(2, 6);
+            let mut made: Vec<String> = vec![];
+            for i in 0..count {
+                let len = rng.range(1, 5) as usize;
+                let mut name = String::new();
+                for _ in 0..len {
+                    if rng.chance(1, 2) {
+                        name.push(*rng.pick(names::SUPPLEMENTARY_CASED));
+                    } else {
+                        name.push(*rng.pick(&['a', 'B', 'é', '7', '_']));
+                    }
+                }
+                if !name.chars().any(|ch| (ch as u32) >= 0x10000) {
+                    name.push(*rng.pick(names::SUPPLEMENTARY_CASED));
+                }
+                if made.iter().any(|m| names::cfb_eq(m, &name)) {
+                    continue;
+                }
+                let path = format!("/{}", name);
+                let other = format!("/{}", names::flip_supplementary_case(&name));
+                if rng.chance(1, 2) {
+                    c.ops.push(Op::CreateStorage(path.clone()));
+                    c.ops.push(Op::IsStorage(other.clone()));
+                    c.ops.push(Op::CreateStorage(other.clone()));
+                } else {
+                    c.ops.push(Op::WriteWhole { path: path.clone(), len: *rng.pick(&[0u64, 10, 5000]), nonce: 700 + i as u32 });
+                    c.ops.push(Op::IsStream(other.clone()));
+                    c.ops.push(Op::CreateNewStream(other.clone()));
+                    c.ops.push(Op::ReadWhole(other.clone()));
+                }
+                c.ops.push(Op::Entry(other.clone()));
+                c.ops.push(Op::Exists(path.clone()));
+                c.ops.push(Op::ReadRoot);
+                made.push(name);
+            }
+            if rng.chance(1, 2) {
+                c.ops.push(Op::Reopen { strict: rng.chance(1, 2) });
+            }
+            for m in &made {
+                c.ops.push(Op::Exists(format!("/{}", names::flip_supplementary_case(m))));
+            }
+            if let Some(m) = made.first() {
+                c.ops.push(Op::RemoveStorageAll(format!("/{}", names::flip_supplementary_case(m))));
+                c.ops.push(Op::Exists(format!("/{}", m)));
+            }
         }
         _ => {
             // validation: explicit names through every create call
